@@ -615,6 +615,6 @@ def run(tier, seed):
 MANIFEST = {
     "engine": "E",
     "technique": "exhaustive enumeration of upload sources, read chunkings and parameter neighbours on the real uploader over a virtual grid (default schedule), judged against a hashlib-only reference of the convergent key",
-    "text": "Every (size, secret, k, N, segment size) of a boundary-focused grid is uploaded from Data and then from every other source kind (FileHandle, FileName, short-reading file objects, a custom IUploadable answering now or from a later reactor turn) under EncryptAnUploadable.CHUNKSIZE 1/7/default; and with the parameters given on the uploadable itself while the client is configured with others; for selected files the custom uploadable answers read(n) with every composition into <= 3 pieces, applied to all calls and to each call alone. Caps must be byte-identical, the key and storage index must equal an independent hashlib reference, every pair of cases differing in exactly one of secret/k/N/segment size must have different storage indexes, <= 55 bytes must give a LIT cap embedding the data with zero remote calls, and random-key uploads must use a fresh 16-byte os.urandom draw.",
+    "text": "Every (size, secret, k, N, segment size) of a boundary-focused grid is uploaded from Data and then from every other source kind (FileHandle, FileName, short-reading file objects, a custom IUploadable answering now or from a later reactor turn) under EncryptAnUploadable.CHUNKSIZE 1/7/default; and with the parameters given on the uploadable itself while the client is configured with others; for selected files the custom uploadable answers read(n) with every composition into <= 3 pieces, applied to all calls and to each call alone. Caps must be byte-identical, the key and storage index must equal an independent hashlib reference, every pair of cases differing in exactly one of secret/k/N/segment size must have different storage indexes, <= 55 bytes must give a LIT cap embedding the data with zero remote calls, and random-key uploads must use a fresh 16-byte os.urandom draw. Every case is repeated with k/happy/N/segment size set on the uploadable itself while the client is configured otherwise.",
     "note": "Alphabets in ASSUMPTIONS; all os.urandom output is the scripted stream of vt.boot; uploads run at the default delivery order on honest servers.",
 }
